@@ -55,8 +55,8 @@ type lgCapture struct {
 }
 
 func (h *lgCapture) Enabled(context.Context, slog.Level) bool { return true }
-func (h *lgCapture) WithAttrs([]slog.Attr) slog.Handler        { return h }
-func (h *lgCapture) WithGroup(string) slog.Handler             { return h }
+func (h *lgCapture) WithAttrs([]slog.Attr) slog.Handler       { return h }
+func (h *lgCapture) WithGroup(string) slog.Handler            { return h }
 func (h *lgCapture) Handle(_ context.Context, r slog.Record) error {
 	vals := map[string]string{}
 	var keys []string
